@@ -13,7 +13,8 @@ def num(v, nd=6):
 
 
 def lonlat(c):
-    return '[' + num(c.lon.to_value('deg')) + 'deg, ' + num(c.lat.to_value('deg')) + 'deg]'
+    sp = c.spherical          # lon/lat whatever the frame calls its components
+    return '[' + num(sp.lon.to_value('deg')) + 'deg, ' + num(sp.lat.to_value('deg')) + 'deg]'
 
 
 def ln(q, radunit='deg'):
